@@ -128,7 +128,10 @@ const entryplus3Baggage uint64 = 8 + // fileid
 	16 + // name_handle
 	8 // pointer
 
-// XXX inode locking order violated
+// Apply calls f for each entry with the entry's inode locked, or with nil when
+// that inode cannot be locked without violating the lock order: inodes are
+// locked in ascending order of their numbers, and the directory is held here,
+// so only entries with a larger number are locked.
 func Apply(dip *inode.Inode, op *fstxn.FsTxn, start uint64,
 	dircount uint64, maxcount uint64,
 	f func(*inode.Inode, string, common.Inum, uint64)) bool {
@@ -153,15 +156,19 @@ func Apply(dip *inode.Inode, op *fstxn.FsTxn, start uint64,
 		if op.OwnInum(de.inum) {
 			own = true
 			ip = op.GetInodeUnlocked(de.inum)
-		} else {
+		} else if de.inum > dip.Inum {
 			ip = op.GetInodeInum(de.inum)
-
+		} else {
+			// a smaller number ("..", or a child whose number was reused):
+			// waiting for its lock while holding the directory can deadlock
+			// with a transaction that locks the two in order
+			ip = nil
 		}
 
 		f(ip, de.name, de.inum, off)
 
 		// Release inode early, if this trans didn't own it before.
-		if !own {
+		if !own && ip != nil {
 			op.ReleaseInode(ip)
 		}
 
